@@ -950,19 +950,55 @@ def r8(cx):
                'locals options/list/verbose of kill::syntax::parse not found (renamed?)')
     # values derived from the option argument as a whole, not counting prefix/length-only inspections
     whole = Q.forward_taint(body, {named['options']}, stop_calls=PREFIX_ONLY)
+    # control dependence: `flag = !matches!(c, 's' | 'n')` assigns constants under a test of c - the flag depends on c all the same
+    for _ in range(3):
+        grew = False
+        for b_, j_, st_ in body.stmts():
+            if st_['k'] != 'assign' or st_['lhs'].get('p') or st_['lhs']['l'] in whole:
+                continue
+            if not (st_['rv']['k'] == 'use' and 'c' in st_['rv']['o']):
+                continue
+            for org, lab, e in Q.dominating_conditions(F, body, du, b_):
+                ls = set()
+                if org['k'] in ('place', 'discr'):
+                    ls = {org['pl']['l']}
+                elif org['k'] in ('unop', 'binop', 'cast'):
+                    ls = {p_['l'] for p_ in Q.rvalue_places(org['rv'])}
+                elif org['k'] == 'call':
+                    ls = {org['t']['dest']['l']}
+                # only tests made inside a scan of the argument count (not the tests that select this argument at all)
+                if ls & whole and any(Q.callee_is(body.term(d_), [re.compile(r'Chars<.*> as core::iter::traits::iterator::Iterator>::next$')])
+                                      for d_ in body.dominators().get(b_, ()) if body.term(d_)['k'] == 'call'):
+                    whole.add(st_['lhs']['l'])
+                    grew = True
+                    break
+        if not grew:
+            break
+        whole = Q.forward_taint(body, whole, stop_calls=PREFIX_ONLY)
     # values derived from the character the scan is currently at
     nexts = [(blk, t) for blk, t in body.calls() if Q.callee_is(t, [re.compile(r'Chars<.*> as core::iter::traits::iterator::Iterator>::next$')])]
     cx.require(nexts, 'the character scan of the option argument (Chars::next) was not found')
-    cur_iters = set()
-    for blk, t in nexts:
-        o = du.origin(t['a'][0])
-        if o['k'] == 'ref':
-            cur_iters.add(o['pl']['l'])
-    current = Q.forward_taint(body, cur_iters | {t['dest']['l'] for _, t in nexts})
+    # the argument loop (one iteration per command-line argument): its header separates the scans of different arguments
+    outer = {blk for blk, t in body.calls() if Q.callee_is(t, [re.compile(r'Peekable::<I>::next_if$'), re.compile(r'Peekable<.*> as core::iter::traits::iterator::Iterator>::next$'),
+                                                                 re.compile(r'IntoIter<.*> as core::iter::traits::iterator::Iterator>::next$')])}
+    cx.require(outer, 'the loop over the command-line arguments (Peekable::next_if) was not found')
     n = 0
     for blk, j, st in body.stmts():
         if st['k'] != 'assign' or st['lhs'].get('p') or st['lhs']['l'] not in (named['list'], named['verbose']):
             continue
+        # "the current character": the scan whose loop this assignment sits in (another scan of the same argument, made before
+        # the loop, is the look-ahead the rule asks for)
+        inner = body.reachable(blk, removed=outer)
+        cur_iters = set()
+        cur_dests = set()
+        for nb, t in nexts:
+            if nb not in inner:
+                continue
+            cur_dests.add(t['dest']['l'])
+            o = du.origin(t['a'][0])
+            if o['k'] == 'ref':
+                cur_iters.add(o['pl']['l'])
+        current = Q.forward_taint(body, cur_iters | cur_dests) if (cur_iters or cur_dests) else set()
         o = du.origin(st['rv']['o']) if st['rv']['k'] == 'use' else {'k': 'agg', 'rv': st['rv']}
         if o['k'] == 'agg' and o['rv'].get('variant') in (0, 'None'):
             continue                      # initialisation to None
